@@ -71,7 +71,7 @@ def flat(x):
 
 def make_elem(space, vals):
     import odl
-    vals = np.asarray(vals, dtype=float)
+    vals = np.array(vals, dtype=float)  # always a copy: never share memory with the case data
     if isinstance(space, odl.ProductSpace):
         n = len(vals) // len(space)
         return space.element([make_elem(space[i], vals[i * n:(i + 1) * n])
